@@ -500,6 +500,9 @@ class CExec:
         if o.length is None:
             raise OutOfSubset("access to object %s of unknown extent" % p.obj)
         self.oblige(st, "ub", "oob_read." + p.obj, z3.And(p.off >= 0, p.off < o.length), node)
+        if o.elem.is_ptr():
+            # pointer-valued elements are opaque objects
+            return Ptr(o.elem, "%s[]" % p.obj, z3.IntVal(0))
         t = z3.simplify(z3.Select(st.mem[p.obj], p.off))
         return CV(o.elem, t)
 
@@ -574,9 +577,17 @@ class CExec:
                 raise OutOfSubset("read of unmodelled variable %s" % st.names.get(lv[1], lv[1]))
             v = st.vars[lv[1]]
             if v is None:
+                # reading an indeterminate value: obligation (discharged iff the path is infeasible), then havoc
                 self.oblige(st, "ub", "uninitialised_read." + st.names.get(lv[1], "?"), False, node)
-                raise OutOfSubset("read of uninitialised variable")
+                ty = node_type(node)
+                if ty.is_int():
+                    t = self.fresh("indet")
+                    st.path.append(z3.And(t >= ty.min, t <= ty.max))
+                    return CV(ty, t)
+                raise OutOfSubset("read of uninitialised non-integer variable")
             return v
+        if lv[0] == "const":
+            return lv[1]
         p = lv[1]
         o = st.objs.get(p.obj)
         if o is not None and o.elem.kind == "array":
@@ -586,6 +597,8 @@ class CExec:
     def write_lval(self, st, lv, v, node):
         if lv[0] == "var":
             st.vars[lv[1]] = v
+        elif lv[0] == "const":
+            raise OutOfSubset("write to a global that is not modelled")
         else:
             self.store(st, lv[1], v, node)
 
@@ -612,6 +625,9 @@ class CExec:
     def ev_CharacterLiteral(self, st, n):
         return int_val(node_type(n), int(n["value"]))
 
+    def ev_StringLiteral(self, st, n):
+        return Ptr(node_type(n), "strlit", z3.IntVal(0))
+
     def ev_FloatingLiteral(self, st, n):
         ty = node_type(n)
         return CV(ty, z3.FPVal(float(n["value"]), fp_sort(ty)))
@@ -624,6 +640,11 @@ class CExec:
         if ck in ("NoOp", "FunctionToPointerDecay", "BuiltinFnToFnPtr"):
             return self.ev(st, sub)
         if ck == "ArrayToPointerDecay":
+            s2 = sub
+            while s2["kind"] == "ParenExpr":
+                s2 = s2["inner"][0]
+            if s2["kind"] in ("StringLiteral", "PredefinedExpr"):
+                return Ptr(node_type(n), "strlit", z3.IntVal(0))
             lv = self.lval(st, sub)
             if lv[0] == "mem":
                 return Ptr(node_type(n), lv[1].obj, lv[1].off)
